@@ -48,7 +48,7 @@ def make_object(sx, reg, cls, st, name="obj"):
     return Ref(V.ObjT(cls), cell)
 
 
-def generate(unit, reg, canaries=True):
+def generate(unit, reg, canaries=True, assume_not=(), assume=None):
     """symbolically execute the unit; returns (sx, info)"""
     text, tree = load_source(unit.path)
     fdef = find_function(tree, unit.qual)
@@ -68,10 +68,14 @@ def generate(unit, reg, canaries=True):
     for p, ty in con.params.items():
         params[p] = make_param(sx, reg, p, ty, st)
     st.env.update(params)
+    sx.entry_params = params
+    sx.keep_states = True
     # python-level defaults for parameters not in the contract
     a = fdef.args
     names = [x.arg for x in a.posonlyargs + a.args + a.kwonlyargs]
     for n in names:
+        if n not in st.env and n in getattr(unit, "param_defaults", {}):
+            st.env[n] = unit.param_defaults[n](sx, st)
         if n not in st.env:
             raise Unsupported("parameter %s of %s has no declared type in the sidecar" % (n, unit.qual))
     if unit.ghost_init:
@@ -80,6 +84,11 @@ def generate(unit, reg, canaries=True):
         unit.setup(sx, st, params)
     for (name, src) in con.requires:
         st.assume(sx.eval_spec(src, st))
+    # known-finding split: the main pass excludes the listed input classes, a finding pass selects one
+    for w in assume_not:
+        st.assume(z3.Not(sx.eval_spec(w, st)))
+    if assume:
+        st.assume(sx.eval_spec(assume, st))
     sx.cover(st, "%s/cover:requires" % sx.cur_func)
     entry = st.fork()
     st.ghost["__entry__"] = Conc(entry)
@@ -193,6 +202,89 @@ def check_cvc5(solver, timeout_ms, want_model=False):
         os.unlink(path)
 
 
+def _collect_len_terms(e, acc, seen):
+    if e.get_id() in seen:
+        return
+    seen.add(e.get_id())
+    if z3.is_quantifier(e):
+        _collect_len_terms(e.body(), acc, seen)
+        return
+    if z3.is_app(e):
+        d = e.decl()
+        if d.name() == "n" and e.num_args() == 1 and str(e.arg(0).sort()).startswith("List_"):
+            acc.append(e)
+        if d.name() == "str.len":
+            acc.append(e)
+        for ch in e.children():
+            _collect_len_terms(ch, acc, seen)
+
+
+def _has_free_var(e, cache):
+    k = e.get_id()
+    if k in cache:
+        return cache[k]
+    if z3.is_var(e):
+        r = True
+    elif z3.is_quantifier(e):
+        r = _has_free_var(e.body(), cache)  # conservative
+    else:
+        r = any(_has_free_var(c, cache) for c in e.children())
+    cache[k] = r
+    return r
+
+
+def expand_quantifiers(e, N, memo):
+    """replace quantifiers over Int variables by their instances in [-1, N+1] (exact when the
+    quantified variable is range-guarded by a length <= N, which all engine-generated ones are)"""
+    k = e.get_id()
+    if k in memo:
+        return memo[k][1]
+    if z3.is_quantifier(e):
+        nv = e.num_vars()
+        if (e.is_forall() or e.is_exists()) and all(e.var_sort(i) == z3.IntSort() for i in range(nv)):
+            body = e.body()
+            import itertools as _it
+
+            insts = []
+            for combo in _it.product(range(-1, N + 2), repeat=nv):
+                vals = [z3.IntVal(c) for c in combo]
+                insts.append(expand_quantifiers(z3.substitute_vars(body, *vals), N, memo))
+            r = z3.And(*insts) if e.is_forall() else z3.Or(*insts)
+        else:
+            r = e
+    elif z3.is_app(e) and e.num_args() > 0:
+        ch = [expand_quantifiers(c, N, memo) for c in e.children()]
+        try:
+            r = e.decl()(*ch)
+        except Exception:  # noqa
+            r = e
+    else:
+        r = e
+    memo[k] = (e, r)  # keep `e` alive: z3 reuses ast ids of collected terms
+    return r
+
+
+def bounded_refute(ob, timeout_ms=5000, bounds=(1, 2, 3)):
+    """search for a concrete counter-model with all list lengths <= N and bounded quantifiers expanded"""
+    for N in bounds:
+        memo = {}
+        fs = [expand_quantifiers(h, N, memo) for h in ob.hyps] + [expand_quantifiers(z3.Not(ob.claim), N, memo)]
+        lens, seen, cache = [], set(), {}
+        for f in ob.hyps + [ob.claim]:
+            _collect_len_terms(f, lens, seen)
+        s = z3.Solver()
+        s.set("timeout", timeout_ms)
+        for f in fs:
+            s.add(f)
+        for t in lens:
+            if not _has_free_var(t, cache):
+                s.add(t <= (N if t.decl().name() == "n" else 8 * N))
+        r = s.check()
+        if r == z3.sat:
+            return N, s.model()
+    return None, None
+
+
 def discharge(ob, timeout_ms=10000, use_cvc5=True, both=False):
     neg = z3.Not(ob.claim)
     r, s, dt = check_z3(ob.hyps, neg, timeout_ms)
@@ -208,9 +300,35 @@ def discharge(ob, timeout_ms=10000, use_cvc5=True, both=False):
     elif r == z3.sat:
         ob.status = "refuted"
         ob.model = s.model()
+        # prefer a small counter-model (short lists / strings) for replay
+        try:
+            lens, seen, cache = [], set(), {}
+            for f in ob.hyps + [ob.claim]:
+                _collect_len_terms(f, lens, seen)
+            lens = [t for t in lens if not _has_free_var(t, cache)]
+            for bound in (2, 4):
+                s.push()
+                for t in lens:
+                    s.add(t <= bound)
+                s.set("timeout", 2000)
+                if s.check() == z3.sat:
+                    ob.model = s.model()
+                    s.pop()
+                    break
+                s.pop()
+        except Exception:  # noqa
+            pass
     else:
         ob.reason = s.reason_unknown()
-        if use_cvc5:
+        t0 = time.time()
+        N, m = bounded_refute(ob)
+        ob.seconds += time.time() - t0
+        if m is not None:
+            ob.status = "refuted"
+            ob.backend = "z3 (bounded model search, lengths<=%d)" % N
+            ob.model = m
+            return ob
+        if use_cvc5 and "spec_" not in s.sexpr()[:200000]:
             t0 = time.time()
             r2, err = check_cvc5(s, timeout_ms)
             ob.seconds += time.time() - t0
@@ -303,7 +421,7 @@ def decode_any(model, sx, st, v, depth=0):
 
 
 # ------------------------------------------------------------------------- run one unit (worker)
-def run_unit(unit_key, sidecar_modules, tier="quick", timeout_ms=None):
+def run_unit(unit_key, sidecar_modules, tier="quick", timeout_ms=None, pass_name="main", assume_not=(), assume=None):
     """executed in a worker process: returns a picklable report"""
     import importlib
 
@@ -327,12 +445,15 @@ def run_unit(unit_key, sidecar_modules, tier="quick", timeout_ms=None):
             unit = type("U", (), {"props": lem.props, "contract": None})()
         else:
             unit = reg.units[unit_key]
-            sx, info = generate(unit, reg)
+            sx, info = generate(unit, reg, assume_not=assume_not, assume=assume)
             rep["src"] = unit.src_info
             rep["paths"] = info
             rep["props"] = unit.props
         tmo = timeout_ms or (10000 if tier == "quick" else 60000)
+        only = os.environ.get("PYVC_ONLY")
         for ob in sx.obligations:
+            if only and only not in ob.name:
+                continue
             discharge(ob, tmo, both=(tier == "thorough"))
             d = {
                 "name": ob.name, "kind": ob.kind, "status": ob.status, "backend": ob.backend, "seconds": round(ob.seconds, 3),
@@ -340,9 +461,14 @@ def run_unit(unit_key, sidecar_modules, tier="quick", timeout_ms=None):
             }
             if ob.status == "refuted" and ob.model is not None:
                 try:
-                    entry = None
-                    d["model"] = {}
                     d["model_text"] = model_summary(ob.model)
+                    stt = getattr(ob, "st", None)
+                    if stt is not None and getattr(sx, "entry_params", None):
+                        ent = stt.ghost.get("__entry__")
+                        est = ent.v if ent is not None else stt
+                        d["inputs"] = {p: decode_any(ob.model, sx, est, v) for p, v in sx.entry_params.items()}
+                        d["ghost"] = {g: decode_any(ob.model, sx, stt, v) for g, v in stt.ghost.items() if isinstance(v, Val) and not g.startswith("__")}
+                        d["ghost_entry"] = {g: decode_any(ob.model, sx, est, v) for g, v in est.ghost.items() if isinstance(v, Val) and not g.startswith("__")}
                 except Exception as e:  # noqa
                     d["model_text"] = "<model error %s>" % e
             if ob.kind in ("post", "canary", "hole", "yield", "exc", "call-pre", "loop-init", "loop-preserve", "iteration-post", "assert") and len(rep["obligations"]) < 400:
